@@ -130,10 +130,24 @@ def regenerate_tables() -> Tuple[bool, str]:
     """Runs the translator; rewrites CBV/Gen/Tables.lean only when its content changes."""
     from . import gen_tables
 
+    # the probes of the table modules must not leak interpreter state into the implementation runs
+    import warnings
+
+    try:
+        import numpy as np
+
+        saved_err = np.geterr()
+    except Exception:
+        np = None
+    saved_filters = warnings.filters[:]
     try:
         text = gen_tables.generate()
     except Exception:  # the source no longer exposes what the translator reads
         return False, traceback.format_exc()
+    finally:
+        if np is not None:
+            np.seterr(**saved_err)
+        warnings.filters[:] = saved_filters
     target = LEAN / "CBV" / "Gen" / "Tables.lean"
     with Lock(LEAN / ".lake" / "cbv.lock"):
         if not target.exists() or target.read_text() != text:
